@@ -63,17 +63,20 @@ prop('C07',
 prop('C04',
      title='Zone-aware date-times: one instant, many wall clocks',
      verus=['datetime', 'time'],
-     kani=['vk_fixed_offset_ctor', 'vk_dt_eq_ord_hash', 'vk_dt_from_utc_conversions', 'vk_dt_from_local', 'vk_dt_wallclock_date_getters', 'vk_dt_wallclock_time_getters'],
-     kani_thorough=['vk_dt_wallclock_week_getters', 'vk_dt_with_time', 'vk_dt_with_time_fields', 'vk_dt_months', 'vk_dt_with_year', 'vk_dt_with_month', 'vk_dt_with_day', 'vk_dt_with_ordinal'],
+     kani=['vk_fixed_offset_ctor', 'vk_dt_eq_ord_hash', 'vk_dt_from_utc_conversions', 'vk_dt_from_local', 'vk_dt_wallclock_date_getters', 'vk_dt_wallclock_time_getters', 'vk_dt_map_local_any_zone'],
+     kani_thorough=['vk_dt_wallclock_week_getters', 'vk_dt_with_time', 'vk_dt_with_time_fields', 'vk_dt_months', 'vk_dt_with_year', 'vk_dt_with_month', 'vk_dt_with_day', 'vk_dt_with_ordinal',
+                    'vk_dt_with_year_any_zone', 'vk_dt_with_month_day_any_zone', 'vk_dt_with_day0_ordinal_any_zone', 'vk_dt_with_clock_any_zone', 'vk_dt_months_any_zone', 'vk_dt_days_any_zone', 'vk_dt_with_time_any_zone'],
      kani_timeout=3000,
      twin=['zoned', 'datetime'],
-     uncovered=['DateTime<Tz>::with_* / checked_add_days / checked_add_months (map_local closures + TimeZone::from_local_datetime of an arbitrary Tz)',
+     uncovered=['DateTime<Tz>::with_* / checked_add_days / checked_add_months wrappers: proved for every zone only in the thorough tier (quick proves their engine map_local for every zone and closure)',
                 'formatting of DateTime (core::fmt)', 'time zones other than Utc / FixedOffset (Local is C05)', 'DateTime::naive_local/date_naive (documented to panic out of range)'],
      text='Verus proves the offset shifts on the real text: NaiveTime::overflowing_add/sub_offset (sub-second field kept, day carry in {-1,0,1}), '
           'NaiveDateTime::checked_add/sub_offset (Some exactly when the other reading stays in range, wall = utc +/- offset exactly) and overflowing_add/sub_offset '
           '(always exact thanks to the one-day sentinels). Kani proves for every UTC date-time x every offset in (-24h, 24h): FixedOffset::east_opt/west_opt, '
           'from_utc_datetime/from_local_datetime round trips and their failure condition, Eq/Ord/Hash depend only on the instant, with_timezone/fixed_offset/to_utc '
-          'keep the instant, and all Datelike/Timelike getters read the wall clock (also one day beyond the nominal range).')
+          'keep the instant, and all Datelike/Timelike getters read the wall clock (also one day beyond the nominal range). map_local - the engine of every with_* on DateTime<Tz> - is proved for EVERY zone and '
+          'EVERY closure: the harness instantiates it with a TimeZone whose answers are arbitrary (None / Single / Ambiguous with any offsets) and a closure with an arbitrary result; thorough adds the '
+          'wrappers themselves (with_*, checked_add/sub_months, checked_add/sub_days, with_time) for every zone, the NaiveDateTime operation taken through its contract.')
 
 prop('C05',
      title='Local time follows the zone data: offsets, gaps and folds',
@@ -111,9 +114,11 @@ prop('C08',
      verus=['week', 'time'],
      kani=['vk_date_with_month', 'vk_date_with_day', 'vk_date_with_ordinal', 'vk_date_with_year', 'vk_date_add_months', 'vk_date_sub_months',
            'vk_date_weekday_of_month', 'vk_date_years_since', 'vk_date_quarter_ce_dim', 'vk_month_num_days',
-           'vk_ndt_accessors', 'vk_ndt_with_date_fields', 'vk_ndt_with_time_fields', 'vk_ndt_months', 'vk_mdf_from_ol_with'],
+           'vk_ndt_accessors', 'vk_ndt_with_date_fields', 'vk_ndt_with_time_fields', 'vk_ndt_months', 'vk_mdf_from_ol_with', 'vk_dt_map_local_any_zone'],
+     kani_thorough=['vk_dt_with_year_any_zone', 'vk_dt_with_month_day_any_zone', 'vk_dt_with_day0_ordinal_any_zone', 'vk_dt_with_clock_any_zone', 'vk_dt_months_any_zone', 'vk_dt_days_any_zone', 'vk_dt_with_time_any_zone'],
+     kani_timeout=3000,
      twin=['week', 'zoned'],
-     uncovered=['DateTime<Tz>::with_* / checked_add_months / checked_sub_months (go through map_local closures and the time-zone lookup)',
+     uncovered=['DateTime<Tz>::with_* / checked_add_months / checked_sub_months wrappers: for every zone in the thorough tier only (quick: map_local for every zone and closure)',
                 'NaiveWeek::checked_days / days (RangeInclusive construction from the two proved ends)', 'NaiveWeek::first_day/last_day (expect wrappers)',
                 'DateTime::years_since'],
      text='Kani proves, for every valid date and every u32/i32 replacement value, with_year/month/month0/day/day0/ordinal/ordinal0 (exactly the named field changes, '
